@@ -94,8 +94,9 @@ def run_families(c, families, binp, nontrivial, procs=4):
         c.log('family %-26s TLC %7d states; graph %6d edges -> %5d behaviours (+%d simulated)' % (fam['name'], r.distinct, len(edges), len(behs), len(sb)))
         hcfg = dict(rowTags={str(k): v for k, v in tags.items()}, index=fam.get('index', 'none'), engine=fam.get('engine', 'measure'),
                     versioned=fam['versioned'], flags=fam.get('flags', []), big=fam.get('big', False),
-                    tagsBySeries=bool(fam.get('tags_by_series')), negZero=bool(fam.get('negzero')))
-        res = c.run_harness_parallel(binp, ['-cfg', json.dumps(hcfg)], allb, name='eng-' + fam['name'], procs=procs, timeout=2400, max_per_proc=120)
+                    tagsBySeries=bool(fam.get('tags_by_series')), negZero=bool(fam.get('negzero')),
+                    ballast=fam.get('ballast', 0), ballastMode=fam.get('ballast_mode', 'deep'), lifecycle=fam.get('lifecycle', ''), shards=fam.get('shards', 1))
+        res = c.run_harness_parallel(binp, ['-cfg', json.dumps(hcfg)], allb, name='eng-' + fam['name'], procs=fam.get('procs', procs), timeout=2400, max_per_proc=120, env=fam.get('env'))
         if res['inconclusive']:
             c.inconclusive('; '.join(res['inconclusive'][:3]))
         seen = set()
